@@ -64,6 +64,9 @@ def canon(line):
         sub, body = e.split(":", 1)
         return (sub, body[1:] if body[:1] in "PX" else "")
     evs2 = [e for _, e in sorted(enumerate(evs), key=lambda ie: (ie[1].split(":", 1)[0], ekey(ie[1])[1] if ie[1].split(":", 1)[1][:1] in "PX" else "", ie[0]))]
+    if res.startswith("spub:"):
+        # concurrent publishes on one stream reach the server in the order the tasks were scheduled: the events are compared as a multiset
+        evs2 = sorted(evs)
     return res + " | " + " ".join(m for _, _, m in keyed) + " | " + " ".join(evs2)
 
 class Tracker:
